@@ -35,7 +35,7 @@ def gen_cases(rng, tier):
         if "user-currencies" in c["tags"]:
             c["delegate"] = "C08"
             cases.append(c)
-    for c in C11.gen_cases(rng, "quick")[:10 if tier != "thorough" else 40]:
+    for c in C11.gen_cases(rng, "quick", rejections=True)[:10 if tier != "thorough" else 40]:
         c["delegate"] = "C11"
         cases.append(c)
     return cases
@@ -53,7 +53,7 @@ def oracle(case, impl):
         from props import C11
         # a rejected update must leave the table (dumped after every update) as it was
         return [f for f in C11.oracle(case, impl)
-                if f["site"] in ("conv:table", "conv:update-accepted")]
+                if f["site"] in ("conv:table", "conv:update-accepted", "conv:update-trace")]
     return _hist.directory_oracle(case, impl, check_trace=True, check_dir=False)
 
 
